@@ -224,7 +224,7 @@ class JointDistribution:
         if isinstance(density, EvaluatedDensity):
             raise ValueError("Cannot add the sum of all evaluated densities to an EvaluatedDensity.")
 
-        density._constant += self._sum_evaluated_densities()
+        density._constant = density._constant + self._sum_evaluated_densities()
         return density
 
     def _as_stacked(self) -> _StackedJointDistribution:
